@@ -1,6 +1,5 @@
 """C32 — SPV required confirmations are minimal and sufficient across epochs."""
 META = {
-    "disabled": True,
     "level": "model_checking",
     "text": "getProofInfo is a decision function over five chain answers. The TLA+ module states the answer declaratively (range "
             "classification against the relay's previous/current epoch; least number of headers whose accumulated difficulty reaches "
